@@ -108,48 +108,95 @@ Theorem C13_collect_objects :
 Proof. exact collect_objects. Qed.
 Print Assumptions C13_collect_objects.
 
-(** Template stage. The clause "rendering is a function of the files whatever the map iteration
-    order" is REFUTED for the stage as implemented (template.go:50-63 writes outputs into the map
-    `getFile` reads): the witness {a.yaml.gotmpl: getFile "b.yaml"; b.yaml.gotmpl; b.yaml} renders
-    to two different a.yaml under two orders of the same map (finding F-C13, replayed on the real
-    code by checks/C13.py). *)
-Theorem C13_templates_refuted :
+(** Template stage (template.go as of commit 10a6940). However Go enumerates pkg.Files - any two
+    enumerations of the same map, paths pairwise different - the stage computes the same file map,
+    for every template set, every suffix rule and every execution oracle; no hypothesis about what
+    templates read or write. *)
+Theorem C13_templates_deterministic :
+  forall is_template strip exec fs fs',
+    Permutation fs fs' -> NoDup (map fst fs) ->
+    render_templates_fixed is_template strip exec fs = render_templates_fixed is_template strip exec fs'.
+Proof. exact templates_order_independent. Qed.
+Print Assumptions C13_templates_deterministic.
+
+(** Exactly the packaged files named like templates are executed, each once; a path that only
+    exists because a template wrote it is never executed, however it is named. *)
+Theorem C13_templates_executed :
+  forall is_template (strip : N -> N) fs,
+    (forall p, In p (template_paths is_template fs) <-> In p (map fst fs) /\ is_template p = true) /\
+    (NoDup (map fst fs) -> NoDup (template_paths is_template fs)) /\
+    (forall q, ~ In (strip q) (map fst fs) -> ~ In (strip q) (template_paths is_template fs)).
+Proof.
+  exact (fun is_template strip fs =>
+           conj (executed_are_packaged is_template fs)
+                (conj (executed_once is_template fs) (output_never_executed is_template strip (fun _ _ => None) fs))).
+Qed.
+Print Assumptions C13_templates_executed.
+
+(** The former witnesses under the fixed stage: both enumerations give a.yaml the packaged b.yaml;
+    the double-suffix package renders. *)
+Example C13_fixed_witness_values :
+  at_path (render_templates_fixed Witness.is_template Witness.strip Witness.exec_fixed Witness.enum1) Witness.A_YAML
+    = Some (Some Witness.STATIC) /\
+  at_path (render_templates_fixed Witness.is_template Witness.strip Witness.exec_fixed Witness.enum2) Witness.A_YAML
+    = Some (Some Witness.STATIC) /\
+  at_path (render_templates_fixed Witness.is_template Witness.strip Witness.exec_fixed Witness.enum2) Witness.B_YAML
+    = Some (Some Witness.RENDERED) /\
+  at_path (render_templates_fixed InsertWitness.is_template InsertWitness.strip InsertWitness.exec_fixed
+             InsertWitness.enum) InsertWitness.C_TMPL = Some (Some 20).
+Proof. exact fixed_witness_values. Qed.
+Print Assumptions C13_fixed_witness_values.
+
+(** Historical record - defect fixed by 10a6940. The stage as it was before ([render_templates_v0]:
+    templates executed in map order, `getFile` reading the map that receives the outputs) was NOT a
+    function of the files: the witness {a.yaml.gotmpl: getFile "b.yaml"; b.yaml.gotmpl; b.yaml}
+    rendered to two different a.yaml under two orders of the same map (finding F-C13, reproduced on
+    the real code of that time: 200 renders, two outputs). *)
+Theorem C13_v0_templates_refuted :
   exists is_template strip exec files order1 order2 k,
     Permutation order1 order2 /\ NoDup order1 /\
-    at_path (render_templates is_template strip exec order1 files) k <>
-    at_path (render_templates is_template strip exec order2 files) k.
-Proof. exact templates_refuted. Qed.
-Print Assumptions C13_templates_refuted.
+    at_path (render_templates_v0 is_template strip exec order1 files) k <>
+    at_path (render_templates_v0 is_template strip exec order2 files) k.
+Proof. exact v0_templates_refuted. Qed.
+Print Assumptions C13_v0_templates_refuted.
 
-(** A second way to the same defect: outputs are inserted into the map while it is ranged over, so a
-    `x.gotmpl.gotmpl` file makes the render fail or succeed depending on whether Go produces the
-    new entry. *)
-Theorem C13_templates_refuted_insert :
-  render_templates InsertWitness.is_template InsertWitness.strip InsertWitness.exec
-                   InsertWitness.order_skipped InsertWitness.files <> None /\
-  render_templates InsertWitness.is_template InsertWitness.strip InsertWitness.exec
-                   InsertWitness.order_produced InsertWitness.files = None.
-Proof. exact templates_refuted_insert. Qed.
-Print Assumptions C13_templates_refuted_insert.
+(** Historical record - defect fixed by 10a6940: outputs were inserted into the map while it was
+    ranged over, so a `x.gotmpl.gotmpl` file made the render fail or succeed depending on whether Go
+    produced the new entry. *)
+Theorem C13_v0_templates_refuted_insert :
+  render_templates_v0 InsertWitness.is_template InsertWitness.strip InsertWitness.exec
+                      InsertWitness.order_skipped InsertWitness.files <> None /\
+  render_templates_v0 InsertWitness.is_template InsertWitness.strip InsertWitness.exec
+                      InsertWitness.order_produced InsertWitness.files = None.
+Proof. exact v0_templates_refuted_insert. Qed.
+Print Assumptions C13_v0_templates_refuted_insert.
 
-(** Strongest true variant: the order cannot matter when no template reads a path another template
-    writes. Missing for the full clause: nothing in RenderTemplates enforces that hypothesis. *)
-Theorem C13_templates_order_independent_partial :
+(** Historical record - defect fixed by 10a6940: what was true of the old stage, order independence
+    under the hypothesis that no template reads a path another template writes (nothing enforced it). *)
+Theorem C13_v0_templates_order_independent_partial :
   forall is_template strip exec,
     exec_extensional exec -> independent is_template strip exec -> strip_injective is_template strip ->
     forall o1 o2 m, Permutation o1 o2 ->
-    forall k, at_path (render_templates is_template strip exec o1 m) k =
-              at_path (render_templates is_template strip exec o2 m) k.
-Proof. exact templates_order_independent. Qed.
-Print Assumptions C13_templates_order_independent_partial.
+    forall k, at_path (render_templates_v0 is_template strip exec o1 m) k =
+              at_path (render_templates_v0 is_template strip exec o2 m) k.
+Proof. exact v0_templates_order_independent. Qed.
+Print Assumptions C13_v0_templates_order_independent_partial.
 
-(** The hypotheses of the partial theorem are satisfiable. *)
-Example C13_independence_satisfiable :
+(** The hypotheses of that partial theorem are satisfiable. *)
+Example C13_v0_independence_satisfiable :
   exec_extensional (fun p _ => Some p) /\
   independent (fun _ => true) (fun p => p + 100) (fun p _ => Some p) /\
   strip_injective (fun _ => true) (fun p => p + 100).
 Proof. exact independence_satisfiable. Qed.
-Print Assumptions C13_independence_satisfiable.
+Print Assumptions C13_v0_independence_satisfiable.
+
+(** The template correspondence does not depend on the order in which the files were listed. *)
+Theorem C13_tmodel_enum_invariant :
+  forall init init' tmpls striptab final,
+    Permutation init init' -> NoDup (map fst init) ->
+    tmodel (init, tmpls, striptab, final) = tmodel (init', tmpls, striptab, final).
+Proof. exact tmodel_enum_invariant. Qed.
+Print Assumptions C13_tmodel_enum_invariant.
 
 (** The run-time monitor used on the implementation's output accepts every output of the model. *)
 Theorem C13_monitor_sound :
